@@ -40,7 +40,24 @@ def lookup_parts(ctx):
     lu = ctx.func('db', 'DB.lookup_utxos')
     lh = nested_where(lu, lambda g: has_store_iter(ctx, g, 'UTXO'), 'iterates the UTXO store (phase one)')
     lo = nested_where(lu, lambda g: has_store_get(ctx, g, 'UTXO'), 'gets a UTXO row (phase two)')
-    return lu, lh, lo, lh.parent, lo.parent
+    def wrapper(inner):
+        # the function that applies `inner` to every element: normally its parent; when the row finder was lifted out of the
+        # wrapper (a closure made a method and put back by the normaliser one level up), the sibling that calls it
+        callers = [g for g in ctx.repo.funcs.values() if g.unit is lu.unit and g is not inner and (g is lu or _under(g, lu))
+                   and any(isinstance(c.func, ast.Name) and c.func.id == inner.name for c in q.own_calls(g))]
+        if inner.parent in callers or not callers:
+            return inner.parent
+        return callers[0]
+    return lu, lh, lo, wrapper(lh), wrapper(lo)
+
+
+def _under(g, top):
+    p = g.parent
+    while p is not None:
+        if p is top:
+            return True
+        p = p.parent
+    return False
 
 
 def calls_func(ctx, g, target):
